@@ -15,6 +15,14 @@ pub proof fn lemma_compose_def_is_exists<Ptr: DDNNFPtr>(f: Ptr, lbl: VarLabel, g
     }
 }
 
+//%% extract src/repr/logical_expr.rs :: - :: enum LogicalExpr
+//%% @pub
+//%% end
+
+//%% extract src/plan/bottom_up_plan.rs :: - :: enum BottomUpPlan
+//%% @pub
+//%% end
+
 // ---- contract of src/builder/mod.rs `BottomUpBuilder` (methods not under contract are not mirrored:
 //      compile_cnf) ----
 pub trait BottomUpBuilder<'a, Ptr: DDNNFPtr> {
@@ -120,4 +128,77 @@ pub trait BottomUpBuilder<'a, Ptr: DDNNFPtr> {
 //%% @entry
         proof { tr_all(); }
 //%% end
+
+//%% extract src/builder/mod.rs :: trait BottomUpBuilder<'a, Ptr> :: fn compile_logical_expr
+//%% @attr #[verifier::exec_allows_no_decreases_clause]
+//%% @ret r
+//%% @spec
+        requires self.bu_inv(), expr_ok(|l: VarLabel| self.lbl_ok(l), *expr),
+        ensures
+            self.ok(r),
+            self.shape2(r), // #C02
+            forall|env: Env| #![trigger tr(env)] #![trigger r.sem(env)] tr(env) ==> r.sem(env) == expr_sem(*expr, env), // #SEM
+//%% end
+
+//%% extract src/builder/mod.rs :: trait BottomUpBuilder<'a, Ptr> :: fn compile_plan
+//%% @attr #[verifier::exec_allows_no_decreases_clause]
+//%% @ret r
+//%% @spec
+        requires self.bu_inv(), plan_ok(|l: VarLabel| self.lbl_ok(l), *expr),
+        ensures
+            self.ok(r),
+            self.shape2(r), // #C02
+            forall|env: Env| #![trigger tr(env)] #![trigger r.sem(env)] tr(env) ==> r.sem(env) == plan_sem(*expr, env), // #SEM
+//%% end
+}
+
+/// the Boolean meaning of a logical expression (literal x is variable x)
+pub open spec fn expr_sem(e: LogicalExpr, env: Env) -> bool
+    decreases e
+{
+    match e {
+        LogicalExpr::Literal(l, p) => env(l as u64) == p,
+        LogicalExpr::Not(a) => !expr_sem(*a, env),
+        LogicalExpr::And(a, b) => expr_sem(*a, env) && expr_sem(*b, env),
+        LogicalExpr::Or(a, b) => expr_sem(*a, env) || expr_sem(*b, env),
+        LogicalExpr::Iff(a, b) => expr_sem(*a, env) == expr_sem(*b, env),
+        LogicalExpr::Xor(a, b) => expr_sem(*a, env) != expr_sem(*b, env),
+        LogicalExpr::Ite { guard, thn, els } => if expr_sem(*guard, env) { expr_sem(*thn, env) } else { expr_sem(*els, env) },
+    }
+}
+/// every literal of the expression is a label the builder knows
+pub open spec fn expr_ok(b: spec_fn(VarLabel) -> bool, e: LogicalExpr) -> bool
+    decreases e
+{
+    match e {
+        LogicalExpr::Literal(l, p) => b(VarLabel(l as u64)),
+        LogicalExpr::Not(a) => expr_ok(b, *a),
+        LogicalExpr::And(a, c) | LogicalExpr::Or(a, c) | LogicalExpr::Iff(a, c) | LogicalExpr::Xor(a, c) => expr_ok(b, *a) && expr_ok(b, *c),
+        LogicalExpr::Ite { guard, thn, els } => expr_ok(b, *guard) && expr_ok(b, *thn) && expr_ok(b, *els),
+    }
+}
+pub open spec fn plan_sem(e: BottomUpPlan, env: Env) -> bool
+    decreases e
+{
+    match e {
+        BottomUpPlan::And(a, b) => plan_sem(*a, env) && plan_sem(*b, env),
+        BottomUpPlan::Or(a, b) => plan_sem(*a, env) || plan_sem(*b, env),
+        BottomUpPlan::Iff(a, b) => plan_sem(*a, env) == plan_sem(*b, env),
+        BottomUpPlan::Ite(f, g, h) => if plan_sem(*f, env) { plan_sem(*g, env) } else { plan_sem(*h, env) },
+        BottomUpPlan::Not(a) => !plan_sem(*a, env),
+        BottomUpPlan::ConstTrue => true,
+        BottomUpPlan::ConstFalse => false,
+        BottomUpPlan::Literal(v, p) => env(v.0) == p,
+    }
+}
+pub open spec fn plan_ok(b: spec_fn(VarLabel) -> bool, e: BottomUpPlan) -> bool
+    decreases e
+{
+    match e {
+        BottomUpPlan::And(a, c) | BottomUpPlan::Or(a, c) | BottomUpPlan::Iff(a, c) => plan_ok(b, *a) && plan_ok(b, *c),
+        BottomUpPlan::Ite(f, g, h) => plan_ok(b, *f) && plan_ok(b, *g) && plan_ok(b, *h),
+        BottomUpPlan::Not(a) => plan_ok(b, *a),
+        BottomUpPlan::ConstTrue | BottomUpPlan::ConstFalse => true,
+        BottomUpPlan::Literal(v, p) => b(v),
+    }
 }
